@@ -25,7 +25,8 @@ def block_cases(seed, k):
     """block-API programs (not-taken _if / _elif / loop iterations are regions with a false guard): in-place writes into list and
     Array variables, boolean variables; compared with the native-control-flow twin"""
     rnd = random.Random(seed * 31 + 7)
-    out = []
+    out = [dict(c, block=1) for c in blockgen.fixed_cases(progs.BN)]
+    k += len(out)
     while len(out) < k:
         c = blockgen.gen_case(rnd, [progs.BN, 65537])
         if c.get("arrays") or "bsetidx" in str(c["prog"]) or rnd.random() < 0.3:
